@@ -61,7 +61,9 @@ def strategy_(draw, tier):
   recipe = draw(dags.dag(
       max_nodes=10, min_nodes=2, leaf_profile='serializable', bts=('Config', 'Partial', 'ArgFactory'),
       kinds=['B', 'B', 'Bpos', 'list', 'tuple', 'dict', 'kdict', 'kdict', 'ddict', 'nt', 'set', 'fset', 'TV',
-             'ltuple', 'ntuple'],
+             'ltuple', 'ntuple',
+             # further node kinds of the shared generator that this check's oracle handles (each once)
+             'mdict', 'Bann', 'Bmut', 'Bmut1', 'Bmutnest', 'Bpo', 'Bdc', 'Bempty', 'AFP', 'holder', 'odict', 'dcinst', 'Bclash', 'Bdictcfg'],
       fns=['things:f2', 'things:h1', 'things:Base', 'things:LeafCls', 'things:DataLoader', 'things:data_loader',
            'things:SubCM.make', 'things:BaseCM.make'],
       root_kinds=['B', 'B', 'list', 'dict', 'tuple', 'Bpos'], p_alias=0.75, tags=True))
@@ -174,6 +176,14 @@ def _has_set(root):
 def check(case):
   out = Outcome()
   root, objs = dags.build(case['recipe'])
+  for _, v in C.walk(root):
+    if isinstance(v, fdl.Buildable):
+      ints = sorted(k for k in v.__arguments__ if isinstance(k, int))
+      if ints and ints != list(range(ints[0], ints[0] + len(ints))):
+        # a hole in *args (an unset TaggedValue was passed positionally): what such a configuration
+        # means is unspecified (C14 skips it for the same reason)
+        out.skipped = 'hole-in-varargs'
+        return out
   mode = case['mode']
   if mode == 'unserializable':
     import fractions
